@@ -124,6 +124,31 @@ impl Pl for u8 {
     }
 }
 
+/// Zero-sized token with drop glue: owns no memory, but each element must still be dropped once.
+pub struct ZTok;
+
+impl Drop for ZTok {
+    fn drop(&mut self) {
+        ledger::zst_dropped();
+    }
+}
+
+impl Clone for ZTok {
+    fn clone(&self) -> ZTok {
+        ZTok::make()
+    }
+}
+
+impl Pl for ZTok {
+    fn make() -> Self {
+        ledger::zst_created();
+        ZTok
+    }
+    fn idents(&self, out: &mut Vec<(u32, bool)>) {
+        out.push((0, false));
+    }
+}
+
 impl Pl for () {
     fn make() -> Self {}
     fn idents(&self, _out: &mut Vec<(u32, bool)>) {}
